@@ -6,11 +6,17 @@ from common import fx, unfx, enc_list, close
 from props import c01, c16
 
 REQUIRED = ['aipw_dr_outcome', 'aipw_dr_treatment', 'aipsw_dr_outcome', 'aipsw_dr_weights_partial',
-            'aipsw_stab_not_dr', 'both_misspecified_can_move', 'tmle_dr_outcome', 'tmle_dr_outcome_real', 'tmle_dr_treatment', 'tmle_saturated']
+            'aipsw_stab_not_dr', 'both_misspecified_can_move', 'tmle_dr_outcome', 'tmle_dr_outcome_real', 'tmle_dr_treatment', 'tmle_saturated',
+            'tmle_dr_treatment_truncated', 'tmle_dr_outcome_unreached_bound', 'aipsw_dr_weights_unreached_bound']
 RULE = ('random categorical data sets (1-3 covariates, positivity by construction); for each estimator one side is '
         'saturated and the other runs through every sub-model of the saturated one (intercept only, main effects only, '
         'each covariate dropped); AIPTW binary/normal/poisson with and without weights, TMLE binary/continuous '
         '(continuous_bound 0 and default), AIPSW generalize/transport x stabilized x with/without treatment model.  '
+        'Round 4: truncation bounds in every accepted form (float, list, tuple, numpy floats, limits of 0/1, more than two '
+        'entries) -- unreached on a saturated side, biting on the other side, for the treatment model of AIPTW / TMLE / '
+        'AIPSW and the outcome model of TMLE; nuisance models handed over as custom_model= learners with each documented '
+        'interface (2-column predict_proba, 1-d predict_proba, predict only; fit returning self or a new object), '
+        'every combination enumerated.  '
         'distinct = (data hash, estimator, saturated side, sub-model, options); non-trivial = the misspecified side '
         'is really wrong on that data set (its fitted values differ from the saturated fit by > 1e-3 somewhere)')
 ASSUMPTIONS = c01.ASSUMPTIONS + ['the TMLE fluctuation GLM solves its score equations (measured in C03)']
@@ -18,75 +24,147 @@ TOL = dict(rtol=1e-6, atol=1e-7)
 
 
 def unreached_bound(rng, df, covs, wcol):
-    """a truncation bound that no *saturated* fitted treatment probability reaches (so it must change nothing),
-    in one of the accepted forms: False (none), symmetric float, asymmetric [lo, hi]"""
-    p = c01.exact_prop(df, covs, wcol)
-    m = float(min(p.min(), 1 - p.max())) / 2
-    k = int(rng.integers(0, 3))
-    if k == 0:
-        return False
-    if k == 1:
-        return round(m, 4) or False
-    return [round(m, 4) / 2 or 0.0001, 1 - round(m, 4)]
+    """a truncation bound that no *saturated* fitted treatment probability reaches (so it must change nothing), in one of
+    the accepted forms (gen.bound_form: none, symmetric float, list / tuple of python or numpy floats, a limit of exactly
+    0 or 1, more than two entries).  Returns (bound object, JSON-able record)."""
+    return gen.unreached_bound(rng, c01.exact_prop(df, covs, wcol))
 
 
-def aiptw_cells(chk, drv, df, covs, ytype, wcol, cf, dsid, rec, rng=None):
+def bound_arg(b):
+    """the bound object of a stored case (record of gen.bound_form; replay files written before round 4 hold the object)"""
+    return gen.bound_of(b) if (isinstance(b, dict) or not b) else b
+
+
+def draw_learners(rng, side, ytype, allowed=True):
+    """which of the two nuisance models are handed over as custom_model= learners, and with which of the documented
+    interfaces (gen.CellMeanLearner): {'g': interface or None, 'q': interface or None, 'returns': 'self' | 'new'}.
+    A continuous outcome is predicted with predict() only (documented)."""
+    out = {'g': None, 'q': None, 'returns': 'self'}
+    if rng is None or not allowed:
+        return out
+    kinds = ['proba2', 'proba1', 'predict']
+    if rng.uniform() < 0.35:
+        out['g'] = kinds[int(rng.integers(0, 3))]
+    if rng.uniform() < 0.35:
+        out['q'] = kinds[int(rng.integers(0, 3))] if ytype == 'binary' else 'predict'
+    if rng.uniform() < 0.25:
+        out['returns'] = 'new'
+    return out
+
+
+def learner_grid(ytype):
+    """every way of handing the two nuisance models over as learners (at least one of them), by interface"""
+    kinds = [None, 'proba2', 'proba1', 'predict']
+    qk = kinds if ytype == 'binary' else [None, 'predict']
+    return [{'g': g, 'q': q} for g in kinds for q in qk if g or q]
+
+
+def plans(rng, covs, ytype, grid, allowed=True):
+    """(saturated side, sub-model of the other side, learners) of the cells run on one data set: every sub-model with
+    learners drawn at random, or (grid) every learner combination with a sub-model drawn at random"""
+    out = []
+    for side, subs in (('outcome', gen.submodels(covs)), ('treatment', gen.submodels(covs, 'A'))):
+        if grid:
+            for lrn in learner_grid(ytype):
+                out.append((side, subs[int(rng.integers(0, len(subs)))],
+                            dict(lrn, returns='new' if rng.uniform() < 0.25 else 'self')))
+        else:
+            for sub in subs:
+                out.append((side, sub, draw_learners(rng, side, ytype, allowed)))
+    return out
+
+
+def bound_kind(brec):
+    if not brec:
+        return 'none'
+    return brec['form'] + ('' if brec['form'] == 'float' else str(len(brec['values']))) + ('/numpy' if brec['numpy'] else '')
+
+
+def at_limit(t, qrec):
+    """number of initial outcome predictions of a TMLE object that sit on a limit of the outcome bound (it bit there)"""
+    if not qrec:
+        return 0
+    v = qrec['values']
+    lo, hi = v[0], (1 - v[0] if qrec['form'] == 'float' else v[1])
+    q = np.concatenate([np.asarray(t.QA1W, dtype=float), np.asarray(t.QA0W, dtype=float)])
+    return int(np.sum((q == lo) | (q == hi)))
+
+
+def learner(lrn, which):
+    return None if not lrn.get(which) else gen.CellMeanLearner(lrn[which], lrn.get('returns', 'self'))
+
+
+def unit_cell_means(df, covs, ytype, cb):
+    """cell means of the outcome on the scale TMLE works on (binary: as is; continuous: unit interval, clipped at cb)"""
+    y = df['Y'].astype(float)
+    if ytype != 'binary':
+        lo, hi = y.min(), y.max()
+        y = ((y - lo) / (hi - lo)).clip(cb, 1 - cb)
+    return y.groupby([df[c] for c in covs] + [df['A']]).mean().values
+
+
+def aiptw_cells(chk, drv, df, covs, ytype, wcol, cf, dsid, rec, rng=None, grid=False):
     from zepid.causal.doublyrobust import AIPTW
     cols = covs + ['A', 'Y'] + ([wcol] if wcol else [])
     dist = 'poisson' if ytype == 'poisson' else 'gaussian'
     want = c01.measures(cf[('population', 1)], cf[('population', 0)], ytype)
     ref = {}
-    for side, subs in (('outcome', gen.submodels(covs)), ('treatment', gen.submodels(covs, 'A'))):
-        for sub in subs:
-            reuse = rng is not None and 'obj' in ref and rng.uniform() < 0.5
-            a = ref['obj'] if reuse else AIPTW(df[cols], exposure='A', outcome='Y', weights=wcol)
-            ref['obj'] = a     # about half of the specifications are made on an object that was already specified and fitted
-            # a bound that truncates nothing is only meaningful when the treatment model is the saturated one
-            bnd = unreached_bound(rng, df, covs, wcol) if (rng is not None and side == 'treatment') else False
-            if rng is not None and side == 'outcome' and rng.uniform() < 0.5:
-                # outcome model saturated: the treatment probabilities may be ANY non-zero numbers (aipw_dr_outcome), so
-                # a truncation that really bites, symmetric or asymmetric (lo != 1-hi), must change nothing
-                bnd = [[0.3, 0.6], [0.45, 0.9], 0.4][int(rng.integers(0, 3))]
-            a.exposure_model(gen.sat_cov(covs) if side == 'treatment' else sub, bound=bnd, print_results=False)
-            a.outcome_model(gen.sat_out(covs) if side == 'outcome' else sub, continuous_distribution=dist,
-                            print_results=False)
-            a.fit()
-            got = ({'RD': float(a.risk_difference), 'RR': float(a.risk_ratio)} if ytype == 'binary'
-                   else {'ATE': float(a.average_treatment_effect)})
-            # how wrong is the misspecified side?
-            if side == 'outcome':
-                wrong = float(np.max(np.abs(a.df['_g1_'].values - c01.exact_prop(a.df, covs, wcol))))
-            else:
-                full = AIPTW(df[cols], exposure='A', outcome='Y', weights=wcol)
-                if 'q' not in ref:
-                    full.exposure_model('1', print_results=False)
-                    full.outcome_model(gen.sat_out(covs), continuous_distribution=dist, print_results=False)
-                    ref['q'] = full.df['_pY1_'].values.copy()
-                wrong = float(np.max(np.abs(a.df['_pY1_'].values - ref['q'])))
-            case = {'estimator': 'AIPTW', 'saturated': side, 'other_model': sub, 'outcome': ytype, 'weights': wcol,
-                    'object_reused': bool(reuse),
-                    'bound': bnd, 'misspecification': wrong, 'impl': got, 'want': want, 'data': rec}
-            chk.case(case, (dsid, 'AIPTW', side, sub) if wrong > 1e-3 else None,
-                     sample={k: v for k, v in case.items() if k != 'data'} if chk.evals % 29 == 0 else None)
-            chk.count('AIPTW/%s-saturated/%s' % (side, ytype))
-            for k, v in got.items():
-                chk.d(close(v, want[k], **TOL), 'AIPTW %s = standardization with only the %s model saturated' % (k, side),
-                      case)
-            if drv is not None:
-                kw = c01.to_float(gen.enc_rows(a.df, covs, wcol))
-                rep, _ = drv.ask('aipw', c='f', q1=enc_list(a.df['_pY1_'], fx), q0=enc_list(a.df['_pY0_'], fx),
-                                 g1=enc_list(a.df['_g1_'], fx), g0=enc_list(a.df['_g0_'], fx), **kw)
-                ok = rep['status'] == 'ok'
-                if ok:
-                    mm = c01.measures(unfx(rep['y1']), unfx(rep['y0']), ytype)
-                    ok = all(close(got[k], mm[k], rtol=1e-9, atol=1e-12) for k in got)
-                chk.k(ok, 'AIPTW estimates = model (generated pseudo-outcomes) on the fitted values',
-                      dict(case, model=rep))
+    for side, sub, lrn in plans(rng, covs, ytype, grid, allowed=wcol is None):
+        reuse = rng is not None and 'obj' in ref and rng.uniform() < 0.5
+        a = ref['obj'] if reuse else AIPTW(df[cols], exposure='A', outcome='Y', weights=wcol)
+        ref['obj'] = a     # about half of the specifications are made on an object that was already specified and fitted
+        # a bound that truncates nothing is only meaningful when the treatment model is the saturated one
+        bnd, brec = unreached_bound(rng, df, covs, wcol) if (rng is not None and side == 'treatment') else (False, None)
+        if rng is not None and side == 'outcome' and rng.uniform() < 0.5:
+            # outcome model saturated: the treatment probabilities may be ANY non-zero numbers (aipw_dr_outcome), so
+            # a truncation that really bites, symmetric or asymmetric (lo != 1-hi), must change nothing
+            bnd, brec = gen.biting_bound(rng)
+        # either model may be a user-supplied learner (custom_model=) with one of the documented interfaces; the
+        # learner takes no weights, so only in unweighted analyses
+        a.exposure_model(gen.sat_cov(covs) if side == 'treatment' else sub, custom_model=learner(lrn, 'g'), bound=bnd,
+                         print_results=False)
+        a.outcome_model(gen.sat_out(covs) if side == 'outcome' else sub, custom_model=learner(lrn, 'q'),
+                        continuous_distribution=dist, print_results=False)
+        a.fit()
+        got = ({'RD': float(a.risk_difference), 'RR': float(a.risk_ratio)} if ytype == 'binary'
+               else {'ATE': float(a.average_treatment_effect)})
+        # how wrong is the misspecified side?
+        if side == 'outcome':
+            wrong = float(np.max(np.abs(a.df['_g1_'].values - c01.exact_prop(a.df, covs, wcol))))
+        else:
+            full = AIPTW(df[cols], exposure='A', outcome='Y', weights=wcol)
+            if 'q' not in ref:
+                full.exposure_model('1', print_results=False)
+                full.outcome_model(gen.sat_out(covs), continuous_distribution=dist, print_results=False)
+                ref['q'] = full.df['_pY1_'].values.copy()
+            wrong = float(np.max(np.abs(a.df['_pY1_'].values - ref['q'])))
+        case = {'estimator': 'AIPTW', 'saturated': side, 'other_model': sub, 'outcome': ytype, 'weights': wcol,
+                'object_reused': bool(reuse), 'learners': lrn,
+                'bound': brec, 'misspecification': wrong, 'impl': got, 'want': want, 'data': rec}
+        chk.case(case, (dsid, 'AIPTW', side, sub) if wrong > 1e-3 else None,
+                 sample={k: v for k, v in case.items() if k != 'data'} if chk.evals % 29 == 0 else None)
+        chk.count('AIPTW/%s-saturated/%s' % (side, ytype))
+        chk.count('AIPTW/learners/g=%s/q=%s' % (lrn['g'], lrn['q']))
+        chk.count('bound/%s' % bound_kind(brec))
+        for k, v in got.items():
+            chk.d(close(v, want[k], **TOL), 'AIPTW %s = standardization with only the %s model saturated' % (k, side),
+                  case)
+        if drv is not None:
+            kw = c01.to_float(gen.enc_rows(a.df, covs, wcol))
+            rep, _ = drv.ask('aipw', c='f', q1=enc_list(a.df['_pY1_'], fx), q0=enc_list(a.df['_pY0_'], fx),
+                             g1=enc_list(a.df['_g1_'], fx), g0=enc_list(a.df['_g0_'], fx), **kw)
+            ok = rep['status'] == 'ok'
+            if ok:
+                mm = c01.measures(unfx(rep['y1']), unfx(rep['y0']), ytype)
+                ok = all(close(got[k], mm[k], rtol=1e-9, atol=1e-12) for k in got)
+            chk.k(ok, 'AIPTW estimates = model (generated pseudo-outcomes) on the fitted values',
+                  dict(case, model=rep))
 
 
-def tmle_cells(chk, df, covs, ytype, cf_raw, dsid, rec, rng=None):
+def tmle_cells(chk, df, covs, ytype, cf_raw, dsid, rec, rng=None, grid=False):
     from zepid.causal.doublyrobust import TMLE
     cols = covs + ['A', 'Y']
+    objs = {}
     for cb in ((0.0005, 0.0) if ytype != 'binary' else (0.0005,)):
         if ytype == 'binary':
             cf = cf_raw
@@ -98,26 +176,41 @@ def tmle_cells(chk, df, covs, ytype, cf_raw, dsid, rec, rng=None):
             d2['Y'] = u * (hi - lo) + lo
             cf = gen.closed_form(d2, covs)
         want = c01.measures(cf[('population', 1)], cf[('population', 0)], ytype)
-        for side, subs in (('outcome', gen.submodels(covs)), ('treatment', gen.submodels(covs, 'A'))):
-            for sub in subs:
-                reuse = rng is not None and ('tmle', cb) in rec and rng.uniform() < 0.5
-                t = rec[('tmle', cb)] if reuse else TMLE(df[cols], exposure='A', outcome='Y', continuous_bound=cb)
-                rec[('tmle', cb)] = t
-                bnd = unreached_bound(rng, df, covs, None) if (rng is not None and side == 'treatment') else False
-                if rng is not None and side == 'outcome' and rng.uniform() < 0.5:
-                    bnd = [[0.3, 0.6], [0.45, 0.9], 0.4][int(rng.integers(0, 3))]   # biting bound: tmle_dr_outcome holds for any g > 0
-                t.exposure_model(gen.sat_cov(covs) if side == 'treatment' else sub, bound=bnd, print_results=False)
-                t.outcome_model(gen.sat_out(covs) if side == 'outcome' else sub, print_results=False)
-                t.fit()
-                got = ({'RD': float(t.risk_difference), 'RR': float(t.risk_ratio), 'OR': float(t.odds_ratio)}
-                       if ytype == 'binary' else {'ATE': float(t.average_treatment_effect)})
-                case = {'estimator': 'TMLE', 'saturated': side, 'other_model': sub, 'outcome': ytype, 'object_reused': bool(reuse),
-                        'continuous_bound': cb, 'bound': bnd, 'impl': got, 'want': want, 'data': {k: v for k, v in rec.items() if isinstance(k, str)}}
-                chk.case(case, (dsid, 'TMLE', side, sub, cb) if rec['_nontrivial'] else None)
-                chk.count('TMLE/%s-saturated/%s' % (side, ytype))
-                for k, v in got.items():
-                    chk.d(close(v, want[k], rtol=1e-6, atol=1e-6),
-                          'TMLE %s = standardization with only the %s model saturated' % (k, side), case)
+        for side, sub, lrn in plans(rng, covs, ytype, grid):
+            reuse = rng is not None and cb in objs and rng.uniform() < 0.5
+            t = objs[cb] if reuse else TMLE(df[cols], exposure='A', outcome='Y', continuous_bound=cb)
+            objs[cb] = t       # about half of the specifications are made on an object that was already specified and fitted
+            bnd, brec = unreached_bound(rng, df, covs, None) if (rng is not None and side == 'treatment') else (False, None)
+            qbnd, qrec = False, None
+            if rng is not None and side == 'outcome' and rng.uniform() < 0.5:
+                bnd, brec = gen.biting_bound(rng)       # biting bound: tmle_dr_outcome holds for any g > 0
+            if rng is not None and rng.uniform() < 0.5:
+                # truncation of the initial outcome predictions (outcome_model(bound=)): with the treatment model
+                # saturated a truncated Q is one more misspecified Q inside (0,1) (tmle_dr_treatment), so a bound that
+                # really bites must change nothing; with the outcome model saturated, a bound its predictions (the
+                # cell means on TMLE's working scale) do not reach
+                qbnd, qrec = (gen.biting_bound(rng) if side == 'treatment' else
+                              gen.unreached_bound(rng, unit_cell_means(df, covs, ytype, cb), none_ok=False))
+            t.exposure_model(gen.sat_cov(covs) if side == 'treatment' else sub, custom_model=learner(lrn, 'g'), bound=bnd,
+                             print_results=False)
+            t.outcome_model(gen.sat_out(covs) if side == 'outcome' else sub, custom_model=learner(lrn, 'q'), bound=qbnd,
+                            print_results=False)
+            t.fit()
+            got = ({'RD': float(t.risk_difference), 'RR': float(t.risk_ratio), 'OR': float(t.odds_ratio)}
+                   if ytype == 'binary' else {'ATE': float(t.average_treatment_effect)})
+            case = {'estimator': 'TMLE', 'saturated': side, 'other_model': sub, 'outcome': ytype, 'object_reused': bool(reuse),
+                    'continuous_bound': cb, 'bound': brec, 'outcome_bound': qrec, 'learners': lrn,
+                    'outcome_bound_truncated_rows': at_limit(t, qrec),
+                    'impl': got, 'want': want, 'data': rec}
+            chk.case(case, (dsid, 'TMLE', side, sub, cb) if rec['_nontrivial'] else None)
+            chk.count('TMLE/%s-saturated/%s' % (side, ytype))
+            chk.count('TMLE/learners/g=%s/q=%s' % (lrn['g'], lrn['q']))
+            chk.count('bound/%s' % bound_kind(brec))
+            chk.count('TMLE/outcome bound/%s/%s' % (side + ' saturated', 'none' if not qrec else
+                                                    ('bites' if case['outcome_bound_truncated_rows'] else 'does not bite')))
+            for k, v in got.items():
+                chk.d(close(v, want[k], rtol=1e-6, atol=1e-6),
+                      'TMLE %s = standardization with only the %s model saturated' % (k, side), case)
 
 
 def incomplete_cells(chk, rng, ytype):
@@ -190,6 +283,8 @@ def aipsw_cells(chk, drv, rng, tier):
         dsid = hash(df.to_csv())
         cols = covs + ['A', 'Y', 'S']
         sc = gen.sat_cov(covs)
+        smp = dfn[dfn['S'] == 1]
+        ptreat = c01.exact_prop(smp.assign(A=smp['A'].astype(int)), covs, None)   # saturated treatment probabilities (sample)
         for side in ('outcome', 'weights'):
             subs = gen.submodels(covs) if side == 'outcome' else gen.submodels(covs, 'A')
             for sub in subs:
@@ -201,10 +296,18 @@ def aipsw_cells(chk, drv, rng, tier):
                             # the SAMPLE's cell means is still what is returned, whatever the weights
                             use_ay = side == 'outcome' and rng.uniform() < 0.5
                             df = dfa if use_ay else dfn
+                            # truncation of the treatment probabilities (treatment_model(bound=)): with the weight models
+                            # saturated, a bound that no fitted probability reaches must change nothing (any accepted
+                            # form); with the outcome model saturated any weights will do, so also a bound that bites
+                            bnd, brec = False, None
+                            if treat and rng.uniform() < 0.6:
+                                bnd, brec = (gen.unreached_bound(rng, ptreat, none_ok=False) if side == 'weights'
+                                             else gen.biting_bound(rng))
                             e = AIPSW(df[cols], exposure='A', outcome='Y', selection='S', generalize=g)
                             e.sampling_model(sc if side == 'weights' else sub, stabilized=stab, print_results=False)
                             if treat:
-                                e.treatment_model(sc if side == 'weights' else sub, stabilized=stab, print_results=False)
+                                e.treatment_model(sc if side == 'weights' else sub, stabilized=stab, print_results=False,
+                                                  **({'bound': bnd} if brec else {}))
                             e.outcome_model(gen.sat_out(covs) if side == 'outcome' else sub, print_results=False)
                             e.fit()
                             first = (float(e.risk_difference), float(e.risk_ratio))
@@ -213,12 +316,12 @@ def aipsw_cells(chk, drv, rng, tier):
                                   close(e.risk_ratio, first[1], rtol=1e-12, atol=1e-14),
                                   'AIPSW: a second fit() on the same object reproduces the first',
                                   {'estimator': 'AIPSW', 'saturated': side, 'other_model': sub, 'generalize': g,
-                                   'stabilized': stab, 'treatment_model': treat, 'first': first,
+                                   'stabilized': stab, 'treatment_model': treat, 'bound': brec, 'first': first,
                                    'second': [float(e.risk_difference), float(e.risk_ratio)], 'data': rec})
                             want_rd = float(cf[(g, 1)] - cf[(g, 0)])
                             want_rr = float(cf[(g, 1)] / cf[(g, 0)])
                             case = {'estimator': 'AIPSW', 'saturated': side, 'other_model': sub, 'generalize': g,
-                                    'stabilized': stab, 'treatment_model': treat,
+                                    'stabilized': stab, 'treatment_model': treat, 'bound': brec,
                                     'exposure_and_outcome_recorded_outside_sample': bool(use_ay),
                                     'impl': [float(e.risk_difference), float(e.risk_ratio)], 'want': [want_rd, want_rr],
                                     'data': rec}
@@ -226,6 +329,7 @@ def aipsw_cells(chk, drv, rng, tier):
                                      sample={k: v for k, v in case.items() if k != 'data'} if chk.evals % 37 == 0 else None)
                             chk.count('AIPSW/%s-saturated/%s/%s' % (side, 'generalize' if g else 'transport',
                                                                    'stab' if stab else 'unstab'))
+                            chk.count('AIPSW/treatment bound/%s/%s' % (side + ' saturated', bound_kind(brec)))
                             sig = ({'estimator': 'AIPSW', 'stabilized': True, 'misspecified': 'outcome'}
                                    if (side == 'weights' and stab) else None)
                             chk.d(close(e.risk_difference, want_rd, **TOL) and close(e.risk_ratio, want_rr, **TOL),
@@ -254,6 +358,19 @@ def run(chk, drv, rng, tier):
                 aiptw_cells(chk, drv, df, covs, ytype, wcol, cf, dsid, rec, rng)
                 if wcol is None and ytype != 'poisson':
                     tmle_cells(chk, df, covs, ytype, cf, dsid, rec, rng)
+    # configuration sweep of the custom_model= path: every combination of learner interfaces for the two nuisance models
+    # (scikit-learn 2-column predict_proba / 1-d predict_proba / predict only; fit returning self or a new object) x which
+    # side is saturated, sub-model and bound forms drawn at random
+    for ytype in ('binary', 'binary', 'normal', 'poisson') * (1 if tier == 'quick' else 6):
+        df, covs = gen.cat_dataset(rng, outcome=ytype, ncov=int(rng.integers(1, 4)), max_strata=8,
+                                   index=str(rng.choice(['default', 'shifted', 'shuffled'])))
+        cf = gen.closed_form(df, covs, None)
+        rec = gen.describe(df, covs, outcome=ytype, weights=None)
+        rec['frame'] = gen.frame_record(df)
+        rec['_nontrivial'] = bool(c01.nontrivial(df, covs, cf))
+        aiptw_cells(chk, drv, df, covs, ytype, None, cf, hash(df.to_csv()), rec, rng, grid=True)
+        if ytype != 'poisson':
+            tmle_cells(chk, df, covs, ytype, cf, hash(df.to_csv()), rec, rng, grid=True)
     for _ in range(3 if tier == 'quick' else 20):
         for ytype in ('binary', 'normal'):
             incomplete_cells(chk, rng, ytype)
@@ -280,7 +397,8 @@ def replay(rec):
                     e = AIPSW(df[covs + ['A', 'Y', 'S']], exposure='A', outcome='Y', selection='S', generalize=c['generalize'])
                     e.sampling_model(sc if side == 'weights' else sub, stabilized=c['stabilized'], print_results=False)
                     if c['treatment_model']:
-                        e.treatment_model(sc if side == 'weights' else sub, stabilized=c['stabilized'], print_results=False)
+                        e.treatment_model(sc if side == 'weights' else sub, stabilized=c['stabilized'], print_results=False,
+                                          **({'bound': bound_arg(c['bound'])} if c.get('bound') else {}))
                     e.outcome_model(gen.sat_out(covs) if side == 'outcome' else sub, print_results=False)
                     e.fit()
                     got = {'RD': float(e.risk_difference), 'RR': float(e.risk_ratio)}
@@ -292,21 +410,24 @@ def replay(rec):
                     want = c['want']
                     if c['estimator'] == 'TMLE':
                         t = TMLE(df[covs + ['A', 'Y']], exposure='A', outcome='Y', continuous_bound=c.get('continuous_bound', 0.0005))
-                        t.exposure_model(gen.sat_cov(covs) if side == 'treatment' else sub, bound=c.get('bound', False),
-                                         print_results=False)
+                        lrn = c.get('learners') or {}
+                        t.exposure_model(gen.sat_cov(covs) if side == 'treatment' else sub, custom_model=learner(lrn, 'g'),
+                                         bound=bound_arg(c.get('bound')), print_results=False)
                         if c.get('missing_model'):
                             t.missing_model(gen.sat_out(covs) if side == 'treatment' else (sub + ' + A' if 'A' not in sub else sub),
                                             print_results=False)
-                        t.outcome_model(gen.sat_out(covs) if side == 'outcome' else sub, print_results=False)
+                        t.outcome_model(gen.sat_out(covs) if side == 'outcome' else sub, custom_model=learner(lrn, 'q'),
+                                        bound=bound_arg(c.get('outcome_bound')), print_results=False)
                         t.fit()
                         got = ({'RD': float(t.risk_difference), 'RR': float(t.risk_ratio), 'OR': float(t.odds_ratio)}
                                if ytype == 'binary' else {'ATE': float(t.average_treatment_effect)})
                     else:
                         wcol = c.get('weights')
                         a = AIPTW(df[covs + ['A', 'Y'] + ([wcol] if wcol else [])], exposure='A', outcome='Y', weights=wcol)
-                        a.exposure_model(gen.sat_cov(covs) if side == 'treatment' else sub, bound=c.get('bound', False),
-                                         print_results=False)
-                        a.outcome_model(gen.sat_out(covs) if side == 'outcome' else sub,
+                        lrn = c.get('learners') or {}
+                        a.exposure_model(gen.sat_cov(covs) if side == 'treatment' else sub, custom_model=learner(lrn, 'g'),
+                                         bound=bound_arg(c.get('bound')), print_results=False)
+                        a.outcome_model(gen.sat_out(covs) if side == 'outcome' else sub, custom_model=learner(lrn, 'q'),
                                         continuous_distribution='poisson' if ytype == 'poisson' else 'gaussian', print_results=False)
                         a.fit()
                         got = ({'RD': float(a.risk_difference), 'RR': float(a.risk_ratio)} if ytype == 'binary'
